@@ -277,6 +277,8 @@ structure Feat where
   halfway : Bool := false       -- field_mask_halfway     (minted only)
   fastgo : Bool := false        -- backend fastgo         (minted only)
   adaptor : Bool := false       -- apache_adaptor: Read/Write delegate to the adaptor, no ReadField<id>/writeField<id> (declared only)
+  resV2 : Bool := false         -- buildStructLike reserves EVERY method the templates declare (InitDefault, CountSetFields<T>,
+                                -- field-mask accessors, the methods of a backend on top: fastgo); regenerated from the source
   deriving Repr
 
 /-- `Scope.identify`: `cu.Identify` (trim "$", naming style) + the compatible_names suffix -/
@@ -307,14 +309,19 @@ structure StructNames where
   scope : NS
   deriving Repr
 
-/-- built-in methods reserved in the struct scope (`funcs`) -/
-def reservedFuncs (ft : Feat) (cat : Cat) (rawName : Bytes) : List Bytes :=
+/-- the methods fastgo declares for every struct-like (`GoBackend.ExtraStructMethods`) -/
+def fastMethods : List Bytes := [sBLength, sFastWrite, sFastWriteNocopy, sFastAppend, sFastRead]
+
+/-- built-in methods reserved in the struct scope (`funcs`); `goName` is the Go name of the struct-like (`sn`) -/
+def reservedFuncs (ft : Feat) (cat : Cat) (rawName goName : Bytes) : List Bytes :=
   [sRead, sWrite, sString] ++
+  (if ft.resV2 then [sInitDefault] ++ (if ft.fastgo then fastMethods else []) else []) ++
   (if hasDollar rawName then [] else
-    (if cat = .union then [sCountSetFields] else []) ++
+    (if cat = .union then [sCountSetFields] ++ (if ft.resV2 then [sCountSetFields ++ goName] else []) else []) ++
     (if cat = .exception then [sError] else []) ++
     (if ft.kuf then [sCarrying] else []) ++
-    (if ft.deq then [sDeepEqual] else []))
+    (if ft.deq then [sDeepEqual] else []) ++
+    (if ft.resV2 && ft.fieldMask then [sGetFM, sSetFM] ++ (if ft.halfway then [sPassFM] else []) else []))
 
 def reserveAll : NS → List Bytes → Except Err NS
   | ns, [] => .ok ns
@@ -357,9 +364,9 @@ def fieldLoop (ft : Feat) (ident : Bytes → Bytes) : NS → List Fld → Except
     pure (ns2, one :: rest)
 
 /-- the struct-local part of buildStructLike (its own namespace) -/
-def buildMembers (ft : Feat) (ident : Bytes → Bytes) (rawName : Bytes) (cat : Cat) (fields : List Fld) :
+def buildMembers (ft : Feat) (ident : Bytes → Bytes) (rawName goName : Bytes) (cat : Cat) (fields : List Fld) :
     Except Err (NS × List FieldNames) := do
-  let ns0 ← reserveAll NS.empty (reservedFuncs ft cat rawName)
+  let ns0 ← reserveAll NS.empty (reservedFuncs ft cat rawName goName)
   let ns1 ← addAll underscore ns0 (fields.flatMap (methodOps ft ident))
   fieldLoop ft ident ns1 fields
 
@@ -370,7 +377,7 @@ def buildStructLike (ft : Feat) (ident : Bytes → Bytes) (globals : NS) (v : SL
   let (sn', g1) ← globals.add underscore sn v.name
   let g2 ← g1.mustReserve (sNew ++ sn') (dollar (tNew ++ nn))
   let g3 ← g2.mustReserve (sFieldIDToName ++ sn') (dollar (tIds ++ nn))
-  let (scope, fs) ← buildMembers ft ident v.name v.cat v.fields
+  let (scope, fs) ← buildMembers ft ident v.name sn' v.cat v.fields
   pure (g3, { raw := v.name, cat := v.cat, goName := sn', fields := fs, scope := scope })
 
 /-! ## buildFunction / buildService -/
@@ -543,8 +550,8 @@ def declaredGlobals (s : ScopeNames) : List Bytes :=
   s.typedefs.flatMap (fun t => [t.goName] ++ (if t.structTarget then [sNew ++ t.goName] else [])) ++ s.consts
 
 /-- ids of the member operations of one struct-like, in order -/
-def memberIds (ft : Feat) (ident : Bytes → Bytes) (rawName : Bytes) (cat : Cat) (fields : List Fld) : List Bytes :=
-  (reservedFuncs ft cat rawName).map dollar ++ (fields.flatMap (methodOps ft ident)).map Op.id ++ fields.map (·.name)
+def memberIds (ft : Feat) (ident : Bytes → Bytes) (rawName goName : Bytes) (cat : Cat) (fields : List Fld) : List Bytes :=
+  (reservedFuncs ft cat rawName goName).map dollar ++ (fields.flatMap (methodOps ft ident)).map Op.id ++ fields.map (·.name)
 
 /-- the member names the namespace of a struct hands out: reserved methods, accessors, field names -/
 def fieldMethodNames (f : FieldNames) : List Bytes :=
@@ -552,7 +559,7 @@ def fieldMethodNames (f : FieldNames) : List Bytes :=
   [f.reader, f.writer] ++ (if f.deepEq = [] then [] else [f.deepEq])
 
 def managedMembers (ft : Feat) (s : StructNames) : List Bytes :=
-  reservedFuncs ft s.cat s.raw ++ s.fields.flatMap fieldMethodNames ++ s.fields.map (·.name)
+  reservedFuncs ft s.cat s.raw s.goName ++ s.fields.flatMap fieldMethodNames ++ s.fields.map (·.name)
 
 /-! ## identifiers the TEMPLATES declare (templates/*.go, fastgo) — outside every namespace -/
 
@@ -564,17 +571,19 @@ def declaredMembers (ft : Feat) (synth : Bool) (s : StructNames) : List Bytes :=
   (if ft.kuf then [sCarrying, sUnknownFields] else []) ++
   (if ft.deq then [sDeepEqual] else []) ++
   (if ft.fieldMask && !synth then [sGetFM, sSetFM, sFieldmask] ++ (if ft.halfway then [sPassFM] else []) else []) ++
-  (if ft.fastgo then [sBLength, sFastWrite, sFastWriteNocopy, sFastAppend, sFastRead] else []) ++
+  (if ft.fastgo then fastMethods else []) ++
   s.fields.flatMap (fun f => (fieldMethodNames f).filter (fun n => !(ft.adaptor && (n = f.reader || n = f.writer)))) ++
   s.fields.map (·.name)
 
 /-- member names minted by the templates, i.e. not handed out by the struct's namespace -/
 def mintedMembers (ft : Feat) (synth : Bool) (s : StructNames) : List Bytes :=
-  [sInitDefault] ++
-  (if s.cat = .union then [sCountSetFields ++ s.goName] else []) ++
+  (if ft.resV2 then [] else [sInitDefault]) ++
+  (if s.cat = .union && !ft.resV2 then [sCountSetFields ++ s.goName] else []) ++
   (if ft.kuf then [sUnknownFields] else []) ++
-  (if ft.fieldMask && !synth then [sGetFM, sSetFM, sFieldmask] ++ (if ft.halfway then [sPassFM] else []) else []) ++
-  (if ft.fastgo then [sBLength, sFastWrite, sFastWriteNocopy, sFastAppend, sFastRead] else [])
+  (if ft.fieldMask && !synth then
+    (if ft.resV2 then [] else [sGetFM, sSetFM]) ++ [sFieldmask] ++ (if ft.halfway && !ft.resV2 then [sPassFM] else [])
+   else []) ++
+  (if ft.fastgo && !ft.resV2 then fastMethods else [])
 
 /-- `<T>_<F>_DEFAULT` for every field with SupportIsSet (FieldGetOrSet) -/
 def slMinted (s : StructNames) : List Bytes :=
